@@ -269,6 +269,13 @@ func runC13(c *Ctx) {
 		}
 		c.Count("other Write users", 1)
 	}
+	// ---- R7 the removal batch undoes every index entry the commit batch made: the height →
+	// ID index is what a restart reads first (PrepareCache takes its highest entry as the tip);
+	// an entry left behind by a removal points at a block that is gone if the node stops
+	// before a replacement block overwrites it
+	if sb, rb := c.Anchor("pkg/blockchain.(*DataAccess).saveBlock"), c.Anchor("pkg/blockchain.(*DataAccess).removeBlock"); sb != nil && rb != nil {
+		checkKeyFamilySymmetry(c, "C13.R7", sb, rb)
+	}
 }
 
 func stripConv(v ssa.Value) ssa.Value {
